@@ -112,6 +112,7 @@ func init() {
 		}
 		c.floor("nil-state-contract", 9)
 		c18ClearAfterDone(c)
+		c18ErrorFirst(c)
 		// validation-first
 		if f := p.Func("migration", "", "NewRunner"); f != nil {
 			k := 0
@@ -410,4 +411,63 @@ func c18ClearAfterDone(c *Ctx) {
 		c.und("clear-after-done", "migration wipes", "", fmt.Sprintf("only %d whole-bucket clears found in Migrate implementations", n))
 	}
 	c.needFixture("clear-after-done")
+}
+
+// c18ErrorFirst: a Migrate implementation that ran a pipeline reports success or "interrupted, resume later" only on a
+// path where the pipeline's error was tested and found nil. (An error of a worker also leaves IsDone false: testing IsDone
+// first turns a failed block into a graceful interruption, the checkpoint is saved past it and the next run skips it.)
+func c18ErrorFirst(c *Ctx) {
+	p := c.P
+	n := 0
+	for _, fn := range p.sortedFuncs() {
+		pr := pkgRelOf(fn)
+		if !strings.HasPrefix(pr, "migration/") || strings.HasPrefix(pr, "migration/deprecated") || fn.Origin() != nil || fn.Name() != "Migrate" || strings.HasSuffix(p.Pos(fnPos(fn)), "_test.go") {
+			continue
+		}
+		var results []ssa.Instruction
+		allInstrs(fn, func(in ssa.Instruction) {
+			if v, ok := in.(ssa.Value); ok {
+				if _, isCall := in.(*ssa.Call); isCall && isNamed(v.Type(), "migration/pipeline", "Result") {
+					results = append(results, in)
+				}
+			}
+		})
+		if len(results) == 0 {
+			continue
+		}
+		for _, ret := range returnsOf(fn) {
+			if !isNilConst(ret.Results[len(ret.Results)-1]) {
+				continue
+			}
+			after := false
+			for _, r := range results {
+				if dominatesInstr(r, ret.Ret) {
+					after = true
+				}
+			}
+			if !after {
+				continue
+			}
+			n++
+			d := p.mustHoldAt(ret.Ret)
+			ok, miss := everyDisjunctHas(d, []string{"^!", ".Err != nil)"}, []string{".Err == nil)"}, []string{"^!", "errors.Join(", "!= nil)"})
+			c.check(ok, "error-first", fmt.Sprintf("%s: nil-error return #%d after the pipeline ran", qname(fn), n), p.Pos(posOf(ret.Ret, fn)), "only after the pipeline's error was tested and found nil", "Migrate returns a nil error (success or a resume checkpoint) on a path where the pipeline's error was not tested: a worker error is reported as a graceful interruption, the checkpoint moves past the failed item and the migration is later marked applied with that item unconverted: "+miss)
+		}
+	}
+	if n < 2 {
+		c.und("error-first", "pipeline migrations", "", fmt.Sprintf("only %d nil-error returns after a pipeline found", n))
+	}
+	// history-pruning migration: a key listed in a state diff may have no history entry (F1/F17): the copy step classifies
+	// key-not-found instead of failing
+	if f := p.Func("migration/historyprunner", "", "copyValue"); f != nil {
+		ok := false
+		for _, s := range sitesOf(f) {
+			if s.CalleeName() == "errors.Is" && strings.Contains(term(s.Args()[1]), "ErrKeyNotFound") {
+				ok = true
+			}
+		}
+		c.check(ok, "history-entry-optional", "historyprunner.copyValue", p.Pos(fnPos(f)), "an absent history entry is skipped", "the history-pruning migration fails on a diff entry without a history entry (the deprecated state logs none for a write of the zero value to a key never written): pruning cannot be enabled on such a database (F17)")
+	} else {
+		c.und("history-entry-optional", "historyprunner.copyValue", "", "anchor not found")
+	}
 }
